@@ -23,8 +23,9 @@ TIMEOUTS = {"seen": 0}     # time-outs observed in this worker process
 PRELUDE = None      # optional callable(recorder) run when a trace starts (C15: option settings)
 
 
-class CallTimeout(Exception):
-    pass
+class CallTimeout(BaseException):
+    """Raised by the watchdog.  Not an `Exception`: code under test that catches `Exception` must not swallow it;
+    the timer keeps firing every second after the first expiry in case something does."""
 
 
 class TraceTooLarge(Exception):
@@ -38,8 +39,12 @@ class TraceTooLarge(Exception):
 WEIGHT_LIMIT = 6000       # coefficient entries in the results of one call (zero terms kept under retain_coefficients pile up)
 
 
+WATCH = {"armed": False}
+
+
 def _alarm(signum, frame):
-    raise CallTimeout()
+    if WATCH["armed"]:
+        raise CallTimeout()
 
 
 def opts_now() -> dict:
@@ -106,12 +111,14 @@ class Recorder:
         nbefore = len(self.regs)
         t0 = time.perf_counter()
         old = signal.signal(signal.SIGALRM, _alarm)
-        signal.setitimer(signal.ITIMER_REAL, self.timeout_s)
+        signal.setitimer(signal.ITIMER_REAL, self.timeout_s, 1.0)
         out = "ret"
         try:
             try:
+                WATCH["armed"] = True
                 result = _callable(*objs)
             finally:
+                WATCH["armed"] = False
                 signal.setitimer(signal.ITIMER_REAL, 0)
                 signal.signal(signal.SIGALRM, old)
         except CallTimeout:
